@@ -51,6 +51,82 @@ def bodies(kind, rng, ext):
     ]
 
 
+def source_literal_http(kinds, rng, with_docs=True):
+    """replies built from the literals that are new in the source (gen/srclit.py): the statuses, media types and reply sizes
+    it newly mentions, for the given request kinds; each new word as a member of the success and of the error document
+    sent through a 200 / 400 reply.  Empty on the unchanged tree."""
+    from gen import srclit as S
+    out = []
+    variants = ["sync", "async"]
+    i = 0
+    KINDS_ = list(kinds)
+    for status in S.statuses():
+        for kind in KINDS_:
+            for ext in (False, True):
+                bs = bodies(kind, rng, ext)
+                for ct in CTS[:6]:
+                    for label, body in bs:
+                        i += 1
+                        out.append((http_line(variants[i % 2], kind, ext, status, ct, body), "source-literal/status/" + label))
+    for w in S.words():
+        try:
+            wb = w.encode("ascii")
+        except UnicodeEncodeError:
+            continue
+        if not wb or any(c < 0x20 or c > 0x7e for c in wb):
+            continue
+        for ct in (wb, b"application/" + wb, b"application/json; " + wb, b"application/json;charset=" + wb, wb + b"/json", b"application/x+" + wb, wb + b"\napplication/json", b"application/json\n" + wb):
+            for kind in KINDS_:
+                bs = bodies(kind, rng, False)
+                for status in (200, 400):
+                    for label, body in bs[:3]:
+                        i += 1
+                        out.append((http_line(variants[i % 2], kind, False, status, ct, body), "source-literal/content-type"))
+    for n in S.sizes(limit=300000, lo=0):
+        for kind in KINDS_:
+            fam = FAM[kind] or "token"
+            m, known = D.family_doc(fam, rng, False)
+            small = D.render(D.obj(m + [("padding", "")]), rng, plain=True)
+            em = D.render(D.obj([("error", "invalid_grant"), ("error_description", "")]), rng, plain=True)
+            for status, doc, key in ((200, small, "padding"), (400, em, "error_description")):
+                if n < len(doc):
+                    # a body of exactly n bytes that is no document at all
+                    body = ("x" * n).encode()
+                else:
+                    body = doc.replace('"%s":""' % key, '"%s":"%s"' % (key, "x" * (n - len(doc))))
+                for ct in (None, b"application/json"):
+                    i += 1
+                    out.append((http_line(variants[i % 2], kind, False, status, ct, body), "source-literal/body-size"))
+            # Content-Type values of exactly n bytes
+            if n <= 9000:
+                for prefix in (b"text/html; t=", b"application/json; t="):
+                    if n > len(prefix):
+                        i += 1
+                        out.append((http_line(variants[i % 2], kind, False, 200, prefix + b"a" * (n - len(prefix)), small), "source-literal/content-type-length"))
+
+    if with_docs:
+        for w in S.words():
+            if '"' in w or "\\" in w or any(ord(c) < 0x20 for c in w):
+                continue
+            for kind in KINDS_:
+                fam = FAM[kind] or "token"
+                m, known = D.family_doc(fam, rng, False)
+                for name in dict.fromkeys([w, w.lower()]):
+                    if name in known:
+                        continue
+                    for val in ("literal-value", 7, None):
+                        i += 1
+                        out.append((http_line(variants[i % 2], kind, False, 200, b"application/json", D.render(D.obj(D.shuffled(m + [(name, val)], rng)), rng, plain=True)), "source-literal/member-http"))
+                        em = [("error", "invalid_grant"), ("error_description", "d"), (name, val)]
+                        out.append((http_line(variants[i % 2], kind, False, 400, b"application/json", D.render(D.obj(em), rng, plain=True)), "source-literal/member-http"))
+                        out.append((http_line(variants[i % 2], kind, False, 200, b"application/json", D.render(D.obj(em), rng, plain=True)), "source-literal/member-http"))
+                for code in dict.fromkeys([w, w.lower()]):
+                    for status in (400, 401, 200):
+                        i += 1
+                        out.append((http_line(variants[i % 2], kind, False, status, None, D.render(D.obj([("error", code), ("error_description", w)]), rng, plain=True)), "source-literal/error-code-http"))
+    return out
+
+
 def gen(tier, rng):
     out = []
     variants = ["sync", "async"]
@@ -127,6 +203,7 @@ def gen(tier, rng):
     # (catch-all enum, newtype struct, unit enum) and through the reader / owned-value entry points
     for fam in ("token", "introspection"):
         out += [(l, "direct-decode/" + lab) for (l, lab) in D.gen_decode(fam, tier, rng, n_docs=(150 if tier == "quick" else 4000)) if l.split(" ")[2] == "E"]
+    out += source_literal_http(KINDS, rng)
     # transport errors
     for kind in KINDS:
         for v in variants:
@@ -149,6 +226,12 @@ def big_pairs(tier, rng, kinds=None):
                 continue
             padding = ("padding", "x" * size) if pad == "s" else ("padding", ["y"] * (size // 4))
             big = http_line("sync" if ki % 2 else "async", kind, False, 200, b"application/json", D.render(D.obj(m + [padding]), rng, plain=True))
+            pairs.append((small, big))
+        # reply sizes around the integers that are new in the source (gen/srclit.py), above what the extracted model takes directly
+        from gen import srclit as S
+        for n in S.sizes(limit=24 * 1048576, lo=300001):
+            base = D.render(D.obj(m + [("padding", "")]), rng, plain=True)
+            big = http_line("sync" if ki % 2 else "async", kind, False, 200, b"application/json", D.render(D.obj(m + [("padding", "x" * (n - len(base)))]), rng, plain=True))
             pairs.append((small, big))
     return pairs
 
